@@ -901,7 +901,22 @@ func casterCasCases(h *hctx) {
 		h.line("MONITOR C08 harness: a Send passed only %d instrumentation points", len(sp.ids))
 		return
 	}
+	// by what it does (the instrumenter's table), not by position: the last CompareAndSwap announced by that Send; without a
+	// table (older callers) the last point hit
 	pre := sp.ids[len(sp.ids)-1]
+	if pts := ctrLoadPoints(h.p("ptfile", "")); pts != nil {
+		found := false
+		for k := len(sp.ids) - 1; k >= 0; k-- {
+			if pt, ok := pts[sp.ids[k]]; ok && pt.op == ctrOpCode["CompareAndSwap"] {
+				pre, found = sp.ids[k], true
+				break
+			}
+		}
+		if !found {
+			h.line("INCONCLUSIVE C08 load/CAS differential: a plain Send to one receiver announced no CompareAndSwap: the point between Send's final load and its CAS cannot be identified in the instrumented source")
+			return
+		}
+	}
 	id := 0
 	run := func(r uint32, mut2 bool, hi2, lo2 uint32, mut3 bool, hi3, lo3 uint32) {
 		x := NewChanCaster(make(chan int))
